@@ -25,7 +25,7 @@ from __future__ import annotations
 
 import ast
 
-from ..astutil import call_recv, attr_chain, callee_name, calls, is_name, is_self_attr, text
+from ..astutil import call_recv, attr_chain, callee_name, calls, is_name, is_self_attr, local_names, ltext, text
 from ..core import Result
 from ..flow import MustFlow
 from ..model import AnchorMissing, Repo, walk_no_nested
@@ -111,7 +111,8 @@ def run(repo: Repo) -> Result:
                     res.add("C26-PERCENT", fm.qual, "doubling-lambda", "the substitution must keep placeholders and replace every other % by %%", fm.file, doubled[0].lineno)
         if not ok:
             res.add("C26-PERCENT", fm.qual, f"raw-format:{text(left)[:30]}", f"format_message formats `{text(left)[:40]} % ...` without first doubling the percent signs that are not %(name)s placeholders: '100%' raises ValueError and '100% sure' loses characters", fm.file, m.lineno)
-        if not is_name(right, "_vars"):
+        mapping_vars = {st.targets[0].id for st in ast.walk(fm.node) if isinstance(st, ast.Assign) and len(st.targets) == 1 and isinstance(st.targets[0], ast.Name) and isinstance(st.value, ast.DictComp) and any(callee_name(c_) == "findall" for c_ in ast.walk(st.value) if isinstance(c_, ast.Call))}
+        if not (isinstance(right, ast.Name) and right.id in mapping_vars):
             res.add("C26-VARS", fm.qual, f"operand:{text(right)[:30]}", "the message must be formatted with the resolved placeholder mapping", fm.file, m.lineno)
     t = text(fm.node)
     if "for k in self.re_vars.findall(message_text)" not in t or "to_liquid_string(context.resolve(k), autoescape=context.env.autoescape)" not in t:
@@ -134,8 +135,8 @@ def run(repo: Repo) -> Result:
             continue
         n_f += 1
         res.ob(f"{c.qual}.__call__")
-        t = text(f.node)
-        if "if self.message_interpolation:\n    text = self.format_message(context, text, kwargs)" not in t.replace("        ", "    ").replace("    if self", "if self").replace("        text = self.format", "    text = self.format") and "self.format_message(context, text, kwargs)" not in t:
+        t = ltext(f.node, local_names(f.node))  # local names written `_`
+        if "self.format_message(context, _, kwargs)" not in t:
             res.add("C26-VARS", f.qual, "format", f"{f.qual} must interpolate with self.format_message(context, text, kwargs)", f.file, f.line)
     if n_f < 5:
         raise AnchorMissing(f"only {n_f} translate filters found")
@@ -146,18 +147,22 @@ def run(repo: Repo) -> Result:
     fmt = node.methods["_format_message"]
     res.ob(fmt.qual, 2)
     mods = _mod_sites(fmt.node)
-    if len(mods) != 1 or not is_name(mods[0].left, "message_text") or not is_name(mods[0].right, "_vars"):
+    fmt_params = [p_ for p_ in fmt.params() if p_ != "self"]
+    fmt_maps = {st.targets[0].id for st in ast.walk(fmt.node) if isinstance(st, ast.Assign) and len(st.targets) == 1 and isinstance(st.targets[0], ast.Name) and isinstance(st.value, (ast.DictComp, ast.Dict))}
+    if len(mods) != 1 or not (isinstance(mods[0].left, ast.Name) and mods[0].left.id in fmt_params) or not (isinstance(mods[0].right, ast.Name) and mods[0].right.id in fmt_maps):
         res.add("C26-PERCENT", fmt.qual, "mod", "TranslateNode._format_message must be `message_text % _vars`", fmt.file, fmt.line)
     vb = tag.methods["validate_message_block"]
     res.ob(vb.qual, 3)
-    appends = [c for c in calls(vb.node) if callee_name(c) == "append" and is_name(call_recv(c), "message_text")]
+    # the list of pieces is the local that is joined into the message text (`"".join(<pieces>)`)
+    piece_lists = {c.args[0].id for c in calls(vb.node) if callee_name(c) == "join" and c.args and isinstance(c.args[0], ast.Name)}
+    appends = [c for c in calls(vb.node) if callee_name(c) == "append" and isinstance(call_recv(c), ast.Name) and call_recv(c).id in piece_lists]
     if len(appends) < 2:
         res.add("C26-PERCENT", vb.qual, "pieces", "validate_message_block must assemble the message from text and placeholder pieces", vb.file, vb.line)
     for a in appends:
         arg = a.args[0]
         ok = (
-            isinstance(arg, ast.Call) and callee_name(arg) == "replace" and text(call_recv(arg)) == "node.text" and [getattr(x, "value", None) for x in arg.args] == ["%", "%%"]
-        ) or (isinstance(arg, ast.JoinedStr) and text(arg) == "f'%({var})s'")
+            isinstance(arg, ast.Call) and callee_name(arg) == "replace" and isinstance(call_recv(arg), ast.Attribute) and call_recv(arg).attr == "text" and isinstance(call_recv(arg).value, ast.Name) and [getattr(x, "value", None) for x in arg.args] == ["%", "%%"]
+        ) or (isinstance(arg, ast.JoinedStr) and len(arg.values) == 3 and [getattr(v_, "value", None) for v_ in (arg.values[0], arg.values[2])] == ["%(", ")s"] and isinstance(arg.values[1], ast.FormattedValue) and isinstance(arg.values[1].value, ast.Name))
         if not ok:
             res.add("C26-PERCENT", vb.qual, f"piece:{text(arg)[:40]}", f"validate_message_block adds `{text(arg)[:50]}` to the message: only %-doubled text and %(var)s placeholders may be added (the text is printf-formatted at render time)", vb.file, a.lineno)
     # the message handed to gettext is that text
@@ -202,7 +207,7 @@ def run(repo: Repo) -> Result:
     if not ok_pl:
         res.add("C26-COUNT", tr.qual, "plural-test", "the t filter must choose the plural form when `plural is not None and n is not None`", tr.file, tr.line)
     for c in calls(tr.node):
-        if callee_name(c) in ("ngettext", "npgettext") and text(c.args[-1]) != "n":
+        if callee_name(c) in ("ngettext", "npgettext") and not (n_vars and is_name(c.args[-1], n_vars[0])):
             res.add("C26-COUNT", tr.qual, f"count-arg:{callee_name(c)}", "the count must be the last argument of ngettext/npgettext", tr.file, c.lineno)
     for cq, cnt in ((f"{F}.NGetText", "__count"), (f"{F}.NPGetText", "__count")):
         f = repo.own_method(cq, "__call__")
@@ -247,8 +252,8 @@ def run(repo: Repo) -> Result:
     if "self.default_translations = default_translations or NullTranslations()" not in text(bi.node):
         res.add("C26-NULL", bi.qual, "defaults", "filters must fall back to NullTranslations()", bi.file, bi.line)
     res.ob("null:whitespace")
-    tv = text(vb.node)
-    if "if self.trim_messages:" not in tv or "msg = self.re_whitespace.sub(' ', msg.strip())" not in tv:
+    tv = ltext(vb.node, local_names(vb.node))  # local names written `_`
+    if "if self.trim_messages:" not in tv or "_ = self.re_whitespace.sub(' ', _.strip())" not in tv:
         res.add("C26-NULL", vb.qual, "whitespace", "the tag collapses whitespace runs with re_whitespace.sub(' ', msg.strip()) only when trim_messages is set", vb.file, vb.line)
     return res
 
